@@ -87,6 +87,7 @@ func init() {
 			"bounded restatement: within B = 10 + 4*T + 3*min(max,8) quiet cycles (3 scrape rounds on every shard after each) a cycle exists after which every healthy fitting target is listed by exactly one sidecar in normal state, nothing is in transfer, no oversized target is listed, and sidecar lists and requested scale stay identical for 5 further cycles; per cycle: all shards in sync + eligible target unplaced => last requested scale > current (below max); " +
 			"plus 4/32 runs of the REAL processes (e7): the `kvass coordinator` binary with a static shard file, its own discovery manager, explorer and API, three `kvass sidecar` binaries, a simulated Prometheus per shard and a target farm; targets are added/removed through the coordinator's configuration file and /-/reload; convergence is bounded in coordination cycles counted at a reverse proxy in front of the sidecar APIs, a wall-clock watchdog only makes a run inconclusive; " +
 			"a fitting target may stay unscraped in the judged state only if max-shard is reached and no shard has room for it next to what it holds (the property presupposes enough allowed shards; counted); one workload in six drains all targets early and refills late; " +
+			"real-process special cases (2/8): down-then-up - a target answers 503 from the start, the configuration is reloaded while it is down, then it serves again (bound 120 coordination cycles; the explorer's retry interval is 5 s of wall-clock time); " +
 			"non-trivial = world with >= 2 shards at some time and >= 1 move or scale event; distinct = hash of the scenario",
 		Assumptions: []string{
 			"targets whose size equals a limit exactly (they fit nowhere yet are not 'larger than the limit') and initial placements of oversized targets are not generated",
@@ -274,6 +275,7 @@ func init() {
 			"enumeration: EVERY placement of one fault (13 variants x 8 cycles x shard 0..2) on five schedules (thorough: all seven), a strided third on the others, 200 seed-sampled pairs (thorough: every pair on the three relief schedules, 8000 sampled pairs on the down-target schedule + 3000 sampled triples); after the last fault the C03 predicate must be reached within B quiet cycles and stay for 5; " +
 			"plus the restart fault on the REAL `kvass sidecar` process (8 / 64 cases, configuration pushed or from --config.file): assigned, killed, started twice more on the same volume, configuration pushed again as the coordinator would, no targets posted - the file given to Prometheus must list exactly the resumed targets in every life; " +
 			"plus 4/32 runs of the real processes (real coordinator binary, three real sidecar binaries) with a sidecar killed and restarted, the coordinator killed and restarted, or a shard unreachable for five cycles in the middle; " +
+			"real-process special fault (2/8): reload-then-wipe-sidecar - a reload, four cycles, then the fullest shard's sidecar returns on an empty volume; " +
 			"non-trivial = a fault was really applied (or the control); distinct = (schedule, fault placements)",
 		Assumptions: []string{
 			"faults are injected in the harness' wrappers around the real api.Get/api.Post, in the simulated StatefulSet and by rebuilding the sidecar on its store; a fault that cannot apply (no such shard at that time) is recorded as not applied",
